@@ -180,7 +180,8 @@ def subspaces(tier):
     subs.append(('native-positions depth<=%d' % D, shapes()))
 
     def opts():
-        OS = [['-gnuerrors'], ['-x'], ['-x', '-x'], ['-n'], ['-E', 'err.log'], ['-E', '!1'], ['-gnuerrors', '-n'], ['-x', '-n', '-E', 'err.log']]
+        OS = [['-gnuerrors'], ['-x'], ['-x', '-x'], ['-n'], ['-E', 'err.log'], ['-E', '!1'], ['-gnuerrors', '-n'], ['-x', '-n', '-E', 'err.log'],
+              ['-l', '-E', 'err.log'], ['-l', '-E', '!2']]     # listing on the console, diagnostics on a channel of their own
         for k in range(0, (2 if q else 3) + 1):
             for s in itertools.product(KINDS, repeat=k):
                 for o in OS:
@@ -260,7 +261,7 @@ def evaluate(case):
         return core.R(False, ck, 'crash/' + ck, '%s on %s' % (ck, d))
     if '-E' in opts:
         t = opts[opts.index('-E') + 1]
-        ch = o.out.decode('latin-1') if t == '!1' else (core.get(t) or b'').decode('latin-1')
+        ch = o.out.decode('latin-1') if t == '!1' else o.err.decode('latin-1') if t == '!2' else (core.get(t) or b'').decode('latin-1')
     else:
         ch = o.err.decode('latin-1')
     want = []
